@@ -130,6 +130,15 @@ def c08_b(ctx: Ctx):
     test = guard.test
     comps = [c for c in ast.walk(test) if isinstance(c, ast.Compare)]
     found = False
+    # a one-directional set comparison misses ids that exist only on the other side
+    onedir = [c for c in ast.walk(test) if isinstance(c, ast.Call) and isinstance(c.func, ast.Attribute) and c.func.attr in ("issubset", "issuperset", "isdisjoint", "difference", "intersection")
+              and (sp_derived(c.func.value, guard) or any(sp_derived(a, guard) for a in c.args))]
+    onedir += [c for c in comps if len(c.ops) == 1 and isinstance(c.ops[0], (ast.LtE, ast.GtE, ast.Lt, ast.Gt)) and any(sp_derived(o, guard) for o in [c.left] + list(c.comparators))
+               and not any(canon(o).startswith("len(") for o in [c.left] + list(c.comparators))]
+    if onedir:
+        found = True
+        out.append(ctx.viol(R, fi, onedir[0], f"the rewrite decision uses the one-directional set test `{canon(onedir[0])[:60]}`: ids that exist only on one side (a job removed from the workspace "
+                            "is still listed in the file, or a new one is missing) do not trigger a rewrite, and the stale file keeps answering open_job(id=...)"))
     for c in comps:
         ops = [c.left] + list(c.comparators)
         if not any(sp_derived(o, guard) for o in ops):
@@ -462,4 +471,18 @@ def c08_h(ctx: Ctx):
                      "is not the set of job directories, so a stale cache file is declared current", witness=cfg.describe_path(w))]
 
 
-RULES = [c08_a, c08_b, c08_c, c08_d, c08_e, c08_f, c08_g, c08_h]
+@rule("C08-i")
+def c08_i(ctx: Ctx):
+    """In update_cache `None` means 'no cache file'; an empty mapping is an exact cache of an empty workspace and must not be rewritten on every call."""
+    from .lints import sentinel_discipline
+    f = ctx.fn(UPD)
+    # the snapshot variable: the local bound to the result of _read_cache()
+    names = [t.id for n in body_nodes(f) if isinstance(n, ast.Assign) and isinstance(n.value, ast.Call) and "signac.project:Project._read_cache" in common.targets_of(ctx, f, n.value)
+             for t in n.targets if isinstance(t, ast.Name)]
+    if not names:
+        return [ctx.inc("C08-i", f, f.node, "update_cache: the snapshot of the cache file (result of _read_cache()) was not found")]
+    return sentinel_discipline(ctx, "C08-i", [(UPD, names[0], "an exact but empty cache (workspace without jobs) is treated like a missing file: it is rewritten on every call and "
+                                              "update_cache() reports work (0) instead of None although nothing changed")])
+
+
+RULES = [c08_a, c08_b, c08_c, c08_d, c08_e, c08_f, c08_g, c08_h, c08_i]
